@@ -501,7 +501,7 @@ def extract_let(repo, spec, ex):
         k += 1
     expr = f.src[hend + lm.end():hend + k].strip()
     ex.items.append(dict(kind='let-expr', source=rel, selector=' :: '.join(sels), sha=_sha(expr), name=f'{name}::{var}'))
-    return expr
+    return f'/*@@BODY {name}_{var}*/' + expr + '/*@@END*/'
 
 
 def extract_lalrpop_action(repo, spec, ex):
